@@ -335,7 +335,31 @@ def rule_kmax_per_scan_key(ctx: Ctx, rep: Report) -> None:
     rep.floor(rule, 1)
 
 
+def rule_kmax_everywhere(ctx: Ctx, rep: Report) -> None:
+    """C16.kmax_everywhere: a scanner looks for the outputs of its scan key at
+    k = 0 .. K_MAX-1 and stops, so every place that *derives* an output key
+    from a counter k bounds that counter by K_MAX -- the sender in
+    silent_payments, the scanner, and the psbt role that writes the output
+    scripts are siblings here. A function that calls `output_key(..., k)` with
+    a k it counts itself refuses (or ranges) against K_MAX."""
+    rule = "C16.kmax_everywhere"
+    n = 0
+    for q, fi in sorted(ctx.prog.functions.items()):
+        if not q.startswith(("btclib.silent_payments", "btclib.psbt.silent_payments")):
+            continue
+        calls = [c for c in own_nodes(fi.node) if isinstance(c, ast.Call) and call_name(c) == "output_key" and len(c.args) == 3 and not isinstance(c.args[2], ast.Constant)]
+        if not calls:
+            continue
+        n += 1
+        bounded = any(isinstance(x, ast.Compare) and any(isinstance(y, (ast.Name, ast.Attribute)) and str(norm(y)).endswith("K_MAX") for y in ast.walk(x)) for x in own_nodes(fi.node)) or \
+            any(isinstance(x, ast.Call) and call_name(x) == "range" and any(str(norm(y)).endswith("K_MAX") for y in x.args) for x in own_nodes(fi.node))
+        rep.ob(rule, q, bounded, fi.where(calls[0]), "the counter is bounded by K_MAX" if bounded else
+               f"`{norm(calls[0])[:60]}` derives an output key from a counter nothing bounds: the output past K_MAX is one its recipient's scanner never reaches")
+    rep.floor(rule, 2)
+
+
 RULES = [
+    ("C16.kmax_everywhere", rule_kmax_everywhere),
     ("C16.kmax_per_scan_key", rule_kmax_per_scan_key),
     ("C16.accumulators", rule_accumulators),
     ("C16.terms_multiset", rule_terms_multiset),
